@@ -3,6 +3,7 @@ package main
 // Evaluation of contract expressions to SMT terms in a given state.
 
 import (
+	"sort"
 	"fmt"
 	"go/constant"
 	"go/types"
@@ -283,7 +284,14 @@ func (vc *VC) evalIdent(env *Env, name string) Term {
 	if c, ok := env.lookupConst("", name); ok {
 		return c
 	}
-	vc.unsup("unknown identifier %q in contract", name)
+	var locals []string
+	if env.fr != nil {
+		for k := range env.fr.allocByName {
+			locals = append(locals, k)
+		}
+		sort.Strings(locals)
+	}
+	vc.unsup("unknown identifier %q in contract (locals in scope of %v: %s)", name, env.fr != nil, strings.Join(locals, " "))
 	return Term{}
 }
 
